@@ -348,7 +348,13 @@ func (conn *Conn) read(ctx *Context, async bool) {
 		if err != nil {
 			err = errors.New("reading error body: " + err.Error())
 		}
-		call.done()
+		if conn.readSched != nil {
+			// pipelining: failures are signalled through the same queue as successes,
+			// so that completions keep the issue order
+			conn.readSched.Schedule(call.done)
+		} else {
+			call.done()
+		}
 		conn.bufferPool.PutBuffer(ctx.buffer)
 		putContext(ctx)
 	default:
